@@ -26,6 +26,15 @@ def shapes(tier):
         for kind in ('p2p', 'bam'):
             for w in (wins if kind == 'p2p' else [1]):
                 yield shape(dll, kind, w)
+    # the transfer is started from a timer callback, i.e. send_pgn itself runs on the background thread (the idiom of
+    # the package's examples): its lines are pre-emption points too
+    for dll in ('j1939-21', 'j1939-22'):
+        for kind, w in (('p2p', 1), ('p2p', 'all'), ('bam', 1)):
+            sc = shape(dll, kind, w)
+            send = sc['script'][0]
+            sc['script'] = [dict(t=1000, s=0, op='add_timer', cid=50, delta=2000, ret=False, script=[dict(op='send', a=send['a'])])]
+            sc['from_timer'] = dict(a=send['a'])
+            yield sc
 
 
 def sweep(sc, holds, step=1, stop_after=None):
@@ -49,6 +58,19 @@ def runner(sc):
 
 
 def oracle(sc, res):
+    if sc.get('from_timer'):
+        a = sc['from_timer']['a']
+        want = tuple(scen.payload(a[5]))
+        v = []
+        got = [tuple(e[7]) for e in res.trace if e[2] == 'cb' and e[1] == 1]
+        if got != [want]:
+            v.append(dict(kind='missing-delivery' if not got else 'wrong-or-repeated-delivery', deliveries=len(got), expected_length=len(want)))
+        for j, js in enumerate(res.job):
+            if js != 'alive':
+                v.append(dict(kind='job-thread-' + js, stack=j))
+        if not all(res.empty):
+            v.append(dict(kind='session-left-at-end', empty=res.empty))
+        return v
     return oracle_tp.check_exactly_once(sc, res)
 
 
@@ -65,7 +87,7 @@ def explore(out, tier, second=0):
             if held is None:
                 continue
             n += 1
-            out.add_case((sc['dll'], sc['kind'], sc['win'], h['s'], h['k'], h['d']), True,
+            out.add_case((sc['dll'], sc['kind'], sc['win'], bool(sc.get('from_timer')), h['s'], h['k'], h['d']), True,
                          sample=dict(dll=sc['dll'], kind=sc['kind'], window=sc['win'], hold=h, held_at=held) if len(out.samples) < 4 else None)
             for x in oracle(sc, res) + same_as_undisturbed(base, res):
                 key = x['kind']
